@@ -32,7 +32,7 @@ ANCHORS = [
 ]
 REQUIRED_ANCHORS = ANCHORS
 REQUIRED = ["hash_pairs", "process_graphs", "with_changes", "with_placeholder", "mirror_rewrites"]
-CASE_TIMEOUT = 120
+CASE_TIMEOUT = 1600
 
 
 def corpus(seed, n):
@@ -63,9 +63,23 @@ def gen_cases(ctx):
     for k, hs in enumerate(seeds):
         if k % ctx.nshards == ctx.shard:
             yield {"kind": "process", "hashseed": hs, "corpus_seed": ctx.seed, "n": 300}
+    # thorough only: every pair the library itself calls equal while the repository's tests run must hash alike
+    if ctx.tier == "thorough" and ctx.shard == ctx.nshards - 1:
+        yield {"kind": "ambient"}
 
 
 def check_case(ctx, case):
+    if case["kind"] == "ambient":
+        from ..instrument import run_ambient
+
+        ev, viol, tail = run_ambient("C03/")
+        ctx.count("ambient:eq_true", ev.get("eq_true", 0))
+        ctx.count("ambient:eq_hash_checked", ev.get("eq_hash_checked", 0))
+        ctx.case(("ambient",), ev.get("eq_hash_checked", 0) > 0)
+        for v in viol[:20]:
+            ctx.violate(v["key"], "repository test-suite under the ambient eq=>hash monitor: " + v["what"], case)
+        ctx.sample({"kind": "ambient", "events": ev, "pytest": tail}, cap=3)
+        return
     if case["kind"] == "process":
         return _process(ctx, case)
     pg = pg_from_json(case["pg"])
